@@ -2,13 +2,14 @@
    Only statements + `exact`; proofs live in proofs/JwtProofs.v, the
    declarative rules (header_rule, typ_rule, payload_rule, options_rule,
    validator_rule, nodot) in model/JwtSpec.v, the executable model in
-   model/Jwt.v and model/Base64url.v.
+   model/Jwt.v and model/Base64url.v; JWK export / import on key material:
+   model/Jwk.v, proofs/JwkProofs.v (section "JWK sets" at the end).
 
    sig_valid (raw MAC / signature verification of one key) and json_parse
    (structpb JSON parsing) are arbitrary functions: every theorem holds for
    all of them.  Times: claims in seconds, clock and skew in nanoseconds. *)
 From Coq Require Import List NArith ZArith Bool.
-From Tink Require Import Bytes Base64url Jwt JwtSpec JwtProofs.
+From Tink Require Import Bytes Base64url Jwt JwtSpec JwtProofs Jwk JwkProofs.
 Import ListNotations.
 Open Scope N_scope.
 
@@ -387,3 +388,369 @@ Section Example.
     split; vm_compute; reflexivity.
   Qed.
 End Example.
+
+(* ================= JWK sets: export / import on key material ================= *)
+
+(* model/Jwk.v follows internal/jwk/jwk.go with Ed25519SupportNone (what
+   jwt.JWKSetFromPublicKeysetHandle / JWKSetToPublicKeysetHandle pass) over
+   PARSED JSON values (objects are read through lookup only: member order is
+   irrelevant).  A public key is its algorithm, its material as the Go key
+   object stores it (uncompressed point 04||x||y; modulus bytes as given,
+   leading zeros kept, and public exponent) and its kid rule.  on_curve (the
+   curve-membership answer of crypto/ecdh) is an arbitrary function: every
+   theorem holds for all of them.  The key ids a handle draws for imported
+   keys are an input (jwk_import_handle). *)
+
+(* ---- import: the exact accepted set ---- *)
+
+(* one element of "keys" is imported as k iff it is an object with: alg one of
+   the nine names and (EC) the matching crv; kty EC / RSA; no d (EC), none of
+   p q dp dq d qi (RSA); use absent or "sig"; key_ops absent or ["verify"]; kid
+   absent (-> IgnoredKID) or a string (-> CustomKID); x, y / n, e strings that
+   base64url-decode; (EC) 04||x||y of the curve's length and on the curve;
+   (RSA) modulus >= 2048 bit, 65537 <= e <= 2^31-1, e odd; k is exactly that
+   algorithm, material and kid rule *)
+Theorem C09_jwk_import_key_accepts_exactly :
+  forall on_curve v k, import_key on_curve v = Some k <-> jwk_key_rule on_curve v k.
+Proof. exact import_key_spec. Qed.
+Print Assumptions C09_jwk_import_key_accepts_exactly.
+
+(* the set: an object whose "keys" is a non-empty list of such objects; the
+   imported keys are exactly those, in order *)
+Theorem C09_jwk_import_set_accepts_exactly :
+  forall on_curve j l,
+    jwk_import on_curve j = Some l
+    <-> exists f vs, j = JObj f /\ lookup s_keys f = Some (JArr vs) /\ vs <> []
+                     /\ Forall2 (jwk_key_rule on_curve) vs l.
+Proof. exact jwk_import_spec. Qed.
+Print Assumptions C09_jwk_import_set_accepts_exactly.
+
+(* the handle: the imported keys in order, all ENABLED, under the drawn ids,
+   the last one primary *)
+Theorem C09_jwk_import_handle_shape :
+  forall on_curve ids j pks,
+    jwk_import on_curve j = Some pks -> length ids = length pks ->
+    exists ks, jwk_import_handle on_curve ids j = Some (ks, last ids 0)
+      /\ map e_key ks = map KPub pks /\ map e_id ks = ids
+      /\ Forall (fun en => e_status en = Enabled) ks.
+Proof. exact jwk_import_handle_shape. Qed.
+Print Assumptions C09_jwk_import_handle_shape.
+
+(* ---- import: what is refused (each for ALL objects) ---- *)
+
+(* "d" present (with any value, null included): never imported *)
+Theorem C09_jwk_private_member_d_rejected :
+  forall on_curve f, lookup s_d f <> None -> import_key on_curve (JObj f) = None.
+Proof. exact reject_d. Qed.
+Print Assumptions C09_jwk_private_member_d_rejected.
+
+(* an RS / PS object with any of p, q, dq, dp, d, qi: never imported *)
+Theorem C09_jwk_rsa_private_members_rejected :
+  forall on_curve f fam a nm,
+    lookup s_alg f = Some (JStr (rsa_name fam a)) ->
+    In nm [s_p; s_q; s_dq; s_dp; s_d; s_qi] -> lookup nm f <> None ->
+    import_key on_curve (JObj f) = None.
+Proof. exact reject_rsa_private_member. Qed.
+Print Assumptions C09_jwk_rsa_private_members_rejected.
+
+Theorem C09_jwk_use_other_than_sig_rejected :
+  forall on_curve f u, lookup s_use f = Some u -> u <> JStr s_sig -> import_key on_curve (JObj f) = None.
+Proof. exact reject_use. Qed.
+Print Assumptions C09_jwk_use_other_than_sig_rejected.
+
+Theorem C09_jwk_key_ops_other_than_verify_rejected :
+  forall on_curve f u,
+    lookup s_key_ops f = Some u -> u <> JArr [JStr s_verify] -> import_key on_curve (JObj f) = None.
+Proof. exact reject_key_ops. Qed.
+Print Assumptions C09_jwk_key_ops_other_than_verify_rejected.
+
+Theorem C09_jwk_kid_not_a_string_rejected :
+  forall on_curve f u,
+    lookup s_kid f = Some u -> (forall c, u <> JStr c) -> import_key on_curve (JObj f) = None.
+Proof. exact reject_kid_not_a_string. Qed.
+Print Assumptions C09_jwk_kid_not_a_string_rejected.
+
+(* alg missing, not a string, or any string other than ES256 ES384 ES512 RS256
+   RS384 RS512 PS256 PS384 PS512 (EdDSA included: Ed25519SupportNone) *)
+Theorem C09_jwk_alg_must_name_a_supported_algorithm :
+  forall on_curve f,
+    (forall a, lookup s_alg f <> Some (JStr (es_name a))) ->
+    (forall fam a, lookup s_alg f <> Some (JStr (rsa_name fam a))) ->
+    import_key on_curve (JObj f) = None.
+Proof. exact reject_alg. Qed.
+Print Assumptions C09_jwk_alg_must_name_a_supported_algorithm.
+
+Theorem C09_jwk_alg_shorter_than_two_or_foreign_prefix_rejected :
+  forall on_curve f alg,
+    lookup s_alg f = Some (JStr alg) ->
+    (length alg < 2)%nat \/ (firstn 2 alg <> s_ES /\ firstn 2 alg <> s_RS /\ firstn 2 alg <> s_PS) ->
+    import_key on_curve (JObj f) = None.
+Proof.
+  intros oc f alg L [H|[H1 [H2 H3]]]; [eapply reject_alg_short | eapply reject_alg_prefix]; eauto.
+Qed.
+Print Assumptions C09_jwk_alg_shorter_than_two_or_foreign_prefix_rejected.
+
+(* ES256 needs P-256, ES384 P-384, ES512 P-521 *)
+Theorem C09_jwk_alg_crv_mismatch_rejected :
+  forall on_curve f a,
+    lookup s_alg f = Some (JStr (es_name a)) -> lookup s_crv f <> Some (JStr (crv_name a)) ->
+    import_key on_curve (JObj f) = None.
+Proof. exact reject_crv_mismatch. Qed.
+Print Assumptions C09_jwk_alg_crv_mismatch_rejected.
+
+Theorem C09_jwk_kty_wrong_or_missing_rejected :
+  forall on_curve f,
+    (forall a, lookup s_alg f = Some (JStr (es_name a)) -> lookup s_kty f <> Some (JStr s_EC) ->
+               import_key on_curve (JObj f) = None)
+    /\ (forall fam a, lookup s_alg f = Some (JStr (rsa_name fam a)) -> lookup s_kty f <> Some (JStr s_RSA) ->
+                      import_key on_curve (JObj f) = None).
+Proof. intros oc f. split; [apply reject_kty_ec | apply reject_kty_rsa]. Qed.
+Print Assumptions C09_jwk_kty_wrong_or_missing_rejected.
+
+(* x, y / n, e missing, not strings, or not base64url (decode_item = None) *)
+Theorem C09_jwk_undecodable_number_rejected :
+  forall on_curve f,
+    (forall a nm, lookup s_alg f = Some (JStr (es_name a)) -> nm = s_x \/ nm = s_y ->
+                  decode_item f nm = None -> import_key on_curve (JObj f) = None)
+    /\ (forall fam a nm, lookup s_alg f = Some (JStr (rsa_name fam a)) -> nm = s_n \/ nm = s_e ->
+                         decode_item f nm = None -> import_key on_curve (JObj f) = None).
+Proof. intros oc f. split; [apply reject_ec_coordinate | apply reject_rsa_number]. Qed.
+Print Assumptions C09_jwk_undecodable_number_rejected.
+
+Theorem C09_jwk_decode_item_reads_a_base64url_string :
+  forall f nm x, decode_item f nm = Some x <-> exists s, lookup nm f = Some (JStr s) /\ b64_decode s = Some x.
+Proof. exact decode_item_spec. Qed.
+Print Assumptions C09_jwk_decode_item_reads_a_base64url_string.
+
+(* the point: total length of x and y wrong, or 04||x||y not on the curve *)
+Theorem C09_jwk_bad_point_rejected :
+  forall on_curve f a x y,
+    lookup s_alg f = Some (JStr (es_name a)) ->
+    decode_item f s_x = Some x -> decode_item f s_y = Some y ->
+    (length x + length y)%nat <> (2 * coord_size a)%nat \/ on_curve a (4 :: x ++ y) = false ->
+    import_key on_curve (JObj f) = None.
+Proof. exact reject_ec_point. Qed.
+Print Assumptions C09_jwk_bad_point_rejected.
+
+(* modulus below 2048 bit; exponent below 65537, above 2^31-1, or even *)
+Theorem C09_jwk_rsa_parameter_limits :
+  forall on_curve f fam a n eb,
+    lookup s_alg f = Some (JStr (rsa_name fam a)) ->
+    decode_item f s_n = Some n -> decode_item f s_e = Some eb ->
+    bitlen n < 2048 \/ be_val eb < 65537 \/ 2147483647 < be_val eb \/ N.odd (be_val eb) = false ->
+    import_key on_curve (JObj f) = None.
+Proof. exact reject_rsa_parameters. Qed.
+Print Assumptions C09_jwk_rsa_parameter_limits.
+
+(* "keys" missing, not a list, or empty; the set not an object; an element
+   not an object; one bad key *)
+Theorem C09_jwk_set_shape_rejections :
+  forall on_curve,
+    (forall j, (forall f, j <> JObj f) -> jwk_import on_curve j = None)
+    /\ (forall f, (forall l, lookup s_keys f <> Some (JArr l)) -> jwk_import on_curve (JObj f) = None)
+    /\ (forall f, lookup s_keys f = Some (JArr []) -> jwk_import on_curve (JObj f) = None)
+    /\ (forall v, (forall f, v <> JObj f) -> import_key on_curve v = None)
+    /\ (forall f vs v, lookup s_keys f = Some (JArr vs) -> In v vs -> import_key on_curve v = None ->
+                       jwk_import on_curve (JObj f) = None).
+Proof.
+  intros oc. split; [apply jwk_import_not_an_object_rejected|].
+  split; [apply jwk_import_keys_not_a_list_rejected|].
+  split; [apply jwk_import_empty_list_rejected|].
+  split; [apply jwk_import_key_not_an_object | apply jwk_import_one_bad_key].
+Qed.
+Print Assumptions C09_jwk_set_shape_rejections.
+
+(* ---- export ---- *)
+
+(* FromPublicKeysetHandle succeeds exactly when every ENABLED entry holds one
+   of the three public key types, passes the coordinate BitLen test, and has a
+   kid that is valid UTF-8 *)
+Theorem C09_jwk_export_succeeds_exactly_when :
+  forall ks,
+    jwk_export ks <> None
+    <-> forall en, In en ks -> e_status en = Enabled ->
+          exists p, e_key en = KPub p /\ export_key p <> None /\ kid_utf8 (pk_kid p) = true.
+Proof. exact jwk_export_succeeds_iff. Qed.
+Print Assumptions C09_jwk_export_succeeds_exactly_when.
+
+(* ... and on keysets whose enabled public keys are what the Go constructors
+   build (keyset_wf: point of the curve's length starting with 04 and on the
+   curve; modulus >= 2048 bit, 65537 <= e <= 2^31-1 odd) the BitLen test never fires *)
+Theorem C09_jwk_export_succeeds_exactly_when_constructed :
+  forall on_curve ks, keyset_wf on_curve ks ->
+    (jwk_export ks <> None
+     <-> forall en, In en ks -> e_status en = Enabled ->
+           exists p, e_key en = KPub p /\ kid_utf8 (pk_kid p) = true).
+Proof. exact jwk_export_succeeds_iff_wf. Qed.
+Print Assumptions C09_jwk_export_succeeds_exactly_when_constructed.
+
+(* (b) JWK export refuses private keys: an ENABLED entry holding a private key
+   -- or any key that is not a JWT ECDSA / RSA-SSA-PKCS1 / RSA-SSA-PSS public
+   key (JWT HMAC, JWT ML-DSA, Ed25519, ...) -- makes the whole export fail *)
+Theorem C09_jwk_export_refuses_private_keys :
+  forall ks en p secret,
+    In en ks -> e_status en = Enabled -> e_key en = KPriv p secret -> jwk_export ks = None.
+Proof. exact jwk_export_refuses_private. Qed.
+Print Assumptions C09_jwk_export_refuses_private_keys.
+
+Theorem C09_jwk_export_refuses_every_non_public_key :
+  forall ks en,
+    In en ks -> e_status en = Enabled -> (forall p, e_key en <> KPub p) -> jwk_export ks = None.
+Proof.
+  intros ks en I S H. apply (jwk_export_refuses_non_public ks en I S). intros [p E]. exact (H p E).
+Qed.
+Print Assumptions C09_jwk_export_refuses_every_non_public_key.
+
+(* what the code does with entries that are not ENABLED: the loop skips them
+   BEFORE looking at the key type, so a DISABLED private (or unsupported) key
+   in an otherwise public keyset does not stop the export and is not exported *)
+Theorem C09_jwk_export_sees_enabled_entries_only :
+  forall ks, jwk_export ks = jwk_export (filter is_enabled ks).
+Proof. exact jwk_export_enabled_only. Qed.
+Print Assumptions C09_jwk_export_sees_enabled_entries_only.
+
+Theorem C09_jwk_export_ignores_a_disabled_entry_whatever_it_holds :
+  forall ks1 ks2 en, e_status en <> Enabled -> jwk_export (ks1 ++ en :: ks2) = jwk_export (ks1 ++ ks2).
+Proof. exact jwk_export_ignores_disabled_entry. Qed.
+Print Assumptions C09_jwk_export_ignores_a_disabled_entry_whatever_it_holds.
+
+(* ---- export then import ---- *)
+
+(* one key: the exported object is imported back as the same algorithm and
+   material with the kid rule  TINK id -> CustomKID base64url(be32 id),
+   CustomKID c -> CustomKID c, IgnoredKID -> IgnoredKID *)
+Theorem C09_jwk_key_export_then_import :
+  forall on_curve p f,
+    pubkey_wf on_curve p -> export_key p = Some f -> import_key on_curve (JObj f) = Some (jwk_pub p).
+Proof. exact import_export_key. Qed.
+Print Assumptions C09_jwk_key_export_then_import.
+
+(* the set: for every constructed keyset whose export succeeds and that has an
+   enabled key, import (export ks) = the ENABLED keys of ks in order *)
+Theorem C09_jwk_export_then_import :
+  forall on_curve ks j,
+    keyset_wf on_curve ks -> jwk_export ks = Some j -> enabled_pubs ks <> [] ->
+    jwk_import on_curve j = Some (map jwk_pub (enabled_pubs ks)).
+Proof. exact jwk_export_import. Qed.
+Print Assumptions C09_jwk_export_then_import.
+
+(* a keyset without an enabled key (not constructible through keyset.Manager:
+   the primary must be enabled) would export {"keys":[]}, which import refuses *)
+Theorem C09_jwk_export_without_enabled_key_is_not_importable :
+  forall on_curve ks,
+    (forall en, In en ks -> e_status en <> Enabled) ->
+    jwk_export ks = Some (JObj [(s_keys, JArr [])])
+    /\ jwk_import on_curve (JObj [(s_keys, JArr [])]) = None.
+Proof. exact jwk_export_of_no_enabled_key_is_not_importable. Qed.
+Print Assumptions C09_jwk_export_without_enabled_key_is_not_importable.
+
+(* ---- link to verification ---- *)
+
+(* kref_of: the raw verifier as a function of the public material alone.  The
+   jkey (kref, kalg, kkid -- all that `verify` uses) of the imported key is
+   jwk_key of the jkey of the original key *)
+Theorem C09_jwk_imported_key_is_jwk_key_of_the_original :
+  forall (kref_of : material -> N) b p,
+    pk_material (jwk_pub p) = pk_material p /\ alg_name (jwk_pub p) = alg_name p
+    /\ jwk_key (jkey_of kref_of b p) = jkey_of kref_of true (jwk_pub p).
+Proof.
+  intros. split; [apply pk_material_jwk_pub|]. split; [apply alg_name_jwk_pub | apply jwk_key_jkey_of].
+Qed.
+Print Assumptions C09_jwk_imported_key_is_jwk_key_of_the_original.
+
+(* a public keyset exported to a JWK set and imported back accepts whatever
+   the public keyset accepts, with the same claims; the imported keys carry
+   the same material and algorithms *)
+Theorem C09_jwk_export_import_verifies_what_the_keyset_verifies :
+  forall on_curve (kref_of : material -> N) sig_valid json_parse ks j o tok r,
+    keyset_wf on_curve ks -> jwk_export ks = Some j ->
+    verify sig_valid json_parse (keyset_view kref_of ks) o tok = Some (VOk r) ->
+    exists pks, jwk_import on_curve j = Some pks
+      /\ map pk_material pks = map pk_material (enabled_pubs ks)
+      /\ map alg_name pks = map alg_name (enabled_pubs ks)
+      /\ map (jkey_of kref_of true) pks = jwk_roundtrip (keyset_view kref_of ks)
+      /\ verify sig_valid json_parse (map (jkey_of kref_of true) pks) o tok = Some (VOk r).
+Proof. exact jwk_export_import_preserves_acceptance. Qed.
+Print Assumptions C09_jwk_export_import_verifies_what_the_keyset_verifies.
+
+(* ... in particular every token its private keyset signs (same laws on the
+   printer / parser and signer / verifier pairs as the round-trip theorem) *)
+Theorem C09_jwk_imported_keyset_verifies_every_signed_token :
+  forall on_curve (kref_of : material -> N)
+         (sig_valid : N -> bytes -> bytes -> bool) (json_parse : bytes -> option fields)
+         (json_print : fields -> bytes) (sign : N -> bytes -> bytes),
+    (forall f, json_utf8 (JObj f) = true -> json_parse (json_print f) = Some f) ->
+    (forall f, wfb (json_print f)) ->
+    (forall kr m, sig_valid kr (sign kr m) m = true) ->
+    (forall kr m, wfb (sign kr m)) ->
+    (forall kr m, sign kr m <> []) ->
+    forall ks j p o v ro r tok,
+      keyset_wf on_curve ks -> jwk_export ks = Some j -> In p (enabled_pubs ks) ->
+      new_raw_jwt ro = Some r ->
+      encode json_print sign (jkey_of kref_of true p) r = Some tok ->
+      new_validator o = Some v -> validate v r = true ->
+      exists pks, jwk_import on_curve j = Some pks
+        /\ verify sig_valid json_parse (map (jkey_of kref_of true) pks) o tok = Some (VOk r).
+Proof. exact jwk_imported_keyset_verifies_signed_tokens. Qed.
+Print Assumptions C09_jwk_imported_keyset_verifies_every_signed_token.
+
+(* ---- non-vacuity: a P-256 key (the base point), an RSA key, a disabled private key ---- *)
+Section JwkExample.
+  Let g256 : bytes :=
+    [4; 107; 23; 209; 242; 225; 44; 66; 71; 248; 188; 230; 229; 99; 164; 64; 242; 119; 3; 125; 129; 45; 235;
+     51; 160; 244; 161; 57; 69; 216; 152; 194; 150; 79; 227; 66; 226; 254; 26; 127; 155; 142; 231; 235; 74;
+     124; 15; 158; 22; 43; 206; 51; 87; 107; 49; 94; 206; 203; 182; 64; 104; 55; 191; 81; 245].
+  (* the only point this on_curve knows *)
+  Let oc (a : hsz) (pt : bytes) : bool := match a with H256 => beq pt g256 | _ => false end.
+  Let n2048 : bytes := 128 :: repeat 0 255.          (* 2^2047: bit length 2048 *)
+  Let es := PubES H256 g256 (KTink 16909060).          (* TINK, id 0x01020304 *)
+  Let rs := PubRSA PS H384 (0 :: 0 :: n2048) 65539 (KCustom [107; 49]).   (* leading zeros kept; custom kid "k1" *)
+  Let ks : keyset :=
+    [mkEntry (KPub es) Enabled 16909060;
+     mkEntry (KPriv (PubES H256 g256 KIgnored) [[1]]) Disabled 5;
+     mkEntry (KOther 0) Destroyed 6;
+     mkEntry (KPub rs) Enabled 7].
+  Let x := firstn 32 (tl g256).
+  Let y := skipn 32 (tl g256).
+  Let obj (xs ys : bytes) (extra : fields) : json :=
+    JObj ([(s_kty, JStr s_EC); (s_crv, JStr (crv_name H256)); (s_alg, JStr (es_name H256));
+           (s_x, JStr xs); (s_y, JStr ys)] ++ extra).
+
+  Example C09_jwk_nonvacuous :
+    keyset_wf oc ks
+    /\ enabled_pubs ks = [es; rs]
+    /\ (exists j, jwk_export ks = Some j
+                  /\ jwk_import oc j = Some [PubES H256 g256 (KCustom (tink_kid 16909060)); rs])
+    (* the same keyset with the private key enabled is refused *)
+    /\ jwk_export (mkEntry (KPriv (PubES H256 g256 KIgnored) [[1]]) Enabled 5 :: ks) = None
+    /\ jwk_export (mkEntry (KOther 0) Enabled 6 :: ks) = None
+    (* import: the bare object is accepted; with d, use "enc", key_ops ["sign"] it is not *)
+    /\ import_key oc (obj (b64_encode x) (b64_encode y) []) = Some (PubES H256 g256 KIgnored)
+    /\ import_key oc (obj (b64_encode x) (b64_encode y) [(s_d, JNull)]) = None
+    /\ import_key oc (obj (b64_encode x) (b64_encode y) [(s_use, JStr [101; 110; 99])]) = None
+    /\ import_key oc (obj (b64_encode x) (b64_encode y) [(s_key_ops, JArr [JStr [115; 105; 103; 110]])]) = None
+    /\ import_key oc (obj (b64_encode x) (b64_encode (firstn 31 y)) []) = None
+    (* only the concatenation x||y is checked: 31 + 33 bytes give the same key *)
+    /\ import_key oc (obj (b64_encode (firstn 31 x)) (b64_encode (skipn 31 x ++ y)) []) = Some (PubES H256 g256 KIgnored).
+  Proof.
+    assert (LE : forall a b : N, N.leb a b = true -> a <= b) by (intros a b; apply N.leb_le).
+    split.
+    { intros en p I S K. unfold ks in I. cbn [In] in I.
+      destruct I as [<-|[<-|[<-|[<-|[]]]]]; cbn [e_status e_key] in *; try discriminate; inversion K; subst p.
+      - unfold es. cbn [pubkey_wf kid_wf]. split; [apply wfb_check; vm_compute; reflexivity|].
+        split; [reflexivity|]. split; [reflexivity|]. split; [vm_compute; reflexivity|]. reflexivity.
+      - unfold rs. cbn [pubkey_wf kid_wf]. split; [apply wfb_check; vm_compute; reflexivity|].
+        split; [apply LE; vm_compute; reflexivity|].
+        split; [split; apply LE; vm_compute; reflexivity|]. split; [reflexivity|].
+        apply wfb_check. reflexivity. }
+    split; [reflexivity|].
+    split; [eexists; split; [vm_compute; reflexivity|]; vm_compute; reflexivity|].
+    split; [vm_compute; reflexivity|].
+    split; [vm_compute; reflexivity|].
+    split; [vm_compute; reflexivity|].
+    split; [vm_compute; reflexivity|].
+    split; [vm_compute; reflexivity|].
+    split; [vm_compute; reflexivity|].
+    split; vm_compute; reflexivity.
+  Qed.
+End JwkExample.
